@@ -185,6 +185,20 @@ func (tc *TypeChecker) CheckType(value interface{}, expectedType Type) error {
 		}
 	}
 
+	// List[T] and List<T> parse to a GenericType rather than an ArrayType; their
+	// elements are checked like those of [T] and T[].
+	if genericType, ok := expectedType.(GenericType); ok && len(genericType.TypeArgs) == 1 {
+		if base, ok := genericType.BaseType.(NamedType); ok && base.Name == "List" {
+			if arr, ok := value.([]interface{}); ok {
+				for i, elem := range arr {
+					if err := tc.CheckType(elem, genericType.TypeArgs[0]); err != nil {
+						return fmt.Errorf("array element %d: %v", i, err)
+					}
+				}
+			}
+		}
+	}
+
 	// For named types, validate against TypeDef if it exists
 	if namedType, ok := expectedType.(NamedType); ok {
 		if typeDef, exists := tc.typeDefs[namedType.Name]; exists {
